@@ -336,7 +336,8 @@ func execRun(c *ctx, in ev) ev {
 		pinned = "big"
 	}
 	e := ev{"op": "Run", "t": t, "n": n, "chlen": chlen, "olen": olen, "mut": mut, "create_ok": false, "decode_ok": false, "eval_ok": false,
-		"fin_ok": false, "err": "", "tokens": []any{}, "nonces": []any{}, "ctx": B(nil), "keyid": B(nil), "oracle": []any{}, "iverify": []any{}, "panic": ""}
+		"fin_ok": false, "err": "", "tokens": []any{}, "nonces": []any{}, "ctx": B(nil), "keyid": B(nil), "oracle": []any{}, "iverify": []any{}, "panic": "",
+		"req": B(nil), "resp": B(nil)}
 	e["panic"] = guard(func() {
 		challenge := randBytes(r, chlen)
 		if kind == "ForeignKeyCollide" {
@@ -356,6 +357,9 @@ func execRun(c *ctx, in ev) ev {
 			return
 		}
 		e["create_ok"] = true
+		if kind == "Id" {
+			e["req"] = B(r1.reqBytes)
+		}
 		evalKey, evalReq, evalOrigin := pinned, r1.reqBytes, origin
 		switch kind {
 		case "ForeignKeyCollide":
@@ -383,6 +387,9 @@ func execRun(c *ctx, in ev) ev {
 		}
 		e["eval_ok"] = true
 		resp = append([]byte{}, resp...)
+		if kind == "Id" {
+			e["resp"] = B(resp)
+		}
 		// the attacker's mutation
 		switch kind {
 		case "Flip":
